@@ -29,24 +29,19 @@ Theorem cancel_bounded : forall sm km t sched, steps_taken G (init sm km t) sche
 Proof. exact (cancel_bounded_l G). Qed.
 Print Assumptions cancel_bounded.
 
-(* The full statement is FALSE for Stop()/Restart() on a subprocess started with Execute() (known finding) — the fact behind
-   it is [exec_holds_lock]: Execute keeps the object mutex for the whole run. *)
-Theorem stop_on_execute_refuted : exec_holds_lock G = true /\ exists t sched,
-  let s := run G (init SExecute KStop t) sched in
-  terminal G s /\ fired s = true /\ ~ good s.
-Proof.
-  split; [vm_compute; reflexivity|].
-  exists leaf_tree, [LMain; LMain; LUser; LUser]. cbv zeta. repeat split; try (vm_compute; reflexivity).
-  - intros l; destruct l; try (vm_compute; reflexivity). destruct i as [|[|i]]; vm_compute; reflexivity.
-  - intros (_ & C & _). vm_compute in C. discriminate.
-Qed.
-Print Assumptions stop_on_execute_refuted.
-
 (* Runs that are not cancelled are not cut short: since the source sets no WaitDelay, Run (Execute) leaves Wait only when
    no live process holds the output pipes — it waits for a descendant that is still writing. *)
 Theorem run_waits_for_pipes : forall s s', mainpc s = M3 -> step G s LMain = Some s' -> no_holder (tbl s) = true.
 Proof. apply run_waits_for_pipes_l. vm_compute. reflexivity. Qed.
 Print Assumptions run_waits_for_pipes.
+
+(* Concurrent Start() calls on one object: for ANY number of callers and ANY interleaving of their steps (the unlocked IsOn
+   test, the wait for the mutex, the IsOn test repeated under it, the spawn), at most one instance of the command is ever
+   spawned — so none can be left untracked.  Needs of the generated Start(): the mutex is held from before cmd.Start to the
+   deferred Unlock, and IsOn is tested again under it. *)
+Theorem at_most_one_instance : forall sched, a_count (a_run G a_init sched) <= 1.
+Proof. apply at_most_one_instance_l. vm_compute. reflexivity. Qed.
+Print Assumptions at_most_one_instance.
 
 (* cancel_kills_group (DESIGN): for EVERY tree in which no process that left the group holds the output pipes, every start
    mode in {Execute, Start, supervisor}, every stop mode in {context cancel, deadline, Cancel(), Stop(), Restart()} — with
@@ -68,6 +63,19 @@ Print Assumptions cancel_kills_group.
    isRunning; Execute holds the lock for the whole run and maintains isRunning; the monitor calls stop() on context end *)
 Example generated_facts_ok : facts_ok G = true.
 Proof. vm_compute. reflexivity. Qed.
+
+(* The full statement is FALSE for Stop()/Restart() on a subprocess started with Execute() (known finding) — the fact behind
+   it is [exec_holds_lock]: Execute keeps the object mutex for the whole run. *)
+Theorem stop_on_execute_refuted : exec_holds_lock G = true /\ exists t sched,
+  let s := run G (init SExecute KStop t) sched in
+  terminal G s /\ fired s = true /\ ~ good s.
+Proof.
+  split; [vm_compute; reflexivity|].
+  exists leaf_tree, [LMain; LMain; LUser; LUser]. cbv zeta. repeat split; try (vm_compute; reflexivity).
+  - intros l; destruct l; try (vm_compute; reflexivity). destruct i as [|[|i]]; vm_compute; reflexivity.
+  - intros (_ & C & _). vm_compute in C. discriminate.
+Qed.
+Print Assumptions stop_on_execute_refuted.
 
 (* Without a WaitDelay, a descendant that has LEFT the group and holds the output pipes keeps Execute in Wait although the
    whole group is dead (the property does not ask for its death, but does ask for the return): known finding. *)
@@ -106,3 +114,12 @@ Proof.
   cbv zeta. repeat split; try (vm_compute; reflexivity).
   intros l; destruct l; try (vm_compute; reflexivity). destruct i as [|[|[|[|[|i]]]]]; vm_compute; reflexivity.
 Qed.
+
+(* ... and the re-check is what it hangs on: the same Start() without it lets two callers that entered together spawn twice *)
+Example start_without_recheck_spawns_twice :
+  let F' := mkFacts (g_setpgid G) (g_cancel_hook G) (g_waitdelay G) (g_killgroup G) (g_run G) (g_stop G) (g_cancel G)
+                    (g_stop_outer G) (g_execute G) (g_monitor G)
+                    [TIfOnReturn; TLock; TDeferUnlock; TCheck; TRetIfErr; TReset; TRunMonitoring; TGetCmd; TCmdStart; TRunningTrue; TReturn]
+                    (g_check_pure G) in
+  start_locks F' = true /\ start_rechecks F' = false /\ a_count (a_run F' a_init [0; 1; 0; 0; 0; 1; 1; 1]) = 2.
+Proof. vm_compute. repeat split; reflexivity. Qed.
